@@ -57,7 +57,7 @@ STRUCT_FAULTS = ['twice', 'cycle', 'self', 'missing_suite', 'missing_case', 'syn
 
 
 def total_runs(tier):
-    return len(sweep_specs()) + (500 if tier == 'quick' else 120000)
+    return len(sweep_specs()) + (500 if tier == 'quick' else 25000)
 
 
 _SW = {}
